@@ -22,6 +22,7 @@ class Flow:
     def __init__(self, fn_hir, first_param_desc=None, on_call=None):
         self.h = fn_hir
         self.calls = []   # (callee, [arg desc], path conditions, line, node)
+        self.ops = []     # overloaded operators resolved to a trait method: same shape as calls
         self.returns = []
         self.on_call = on_call
         env = {}
@@ -57,7 +58,9 @@ class Flow:
             callee = e.get("callee")
             args = [self.desc(x, env) for x in e.get("args", [])]
             if callee is None:
-                return ("call", None, args)
+                # call of a local closure / function value: keep the identity of the callee expression
+                fd = self.desc(e["f"], env) if "f" in e else None
+                return ("call", None, args, fd)
             if callee.endswith("IntoIterator::into_iter") and len(args) == 1:
                 return args[0]
             if callee.endswith("Iterator::next") and len(args) == 1:
@@ -164,6 +167,8 @@ class Flow:
                 out.append(p["path"])
             if p.get("k") == "Lit":
                 out.append(("lit", p.get("v")))
+            if p.get("k") == "Slice":
+                out.append(("slice", len(p.get("ps", [])) + len(p.get("after", [])), bool(p.get("rest"))))
             for v in p.values():
                 if isinstance(v, (dict, list)):
                     Flow.pat_ctors(v, out)
@@ -243,12 +248,17 @@ class Flow:
             d = self.desc(e["e"], env)
             if e.get("src") == "ForLoopDesugar" and e["arms"] and e["arms"][0]["p"].get("k") == "Bind":
                 cond = cond + ((("loop-enter", e.get("l")), (), True),)
+            prev = ()
             for arm in e["arms"]:
                 aenv = dict(env)
                 self.bind(arm["p"], d, aenv)
-                acond = cond + ((d, tuple(self.pat_ctors(arm["p"])), True),)
+                pc = tuple(self.pat_ctors(arm["p"]))
+                # an arm is reached only if the earlier unguarded arms did not match
+                acond = cond + prev + ((d, pc, True),)
                 if e.get("src") == "ForLoopDesugar":
                     acond = cond
+                elif "g" not in arm and pc:
+                    prev = prev + ((d, pc, False),)
                 if "g" in arm:
                     self.visit(arm["g"], aenv, acond)
                 self.visit(arm["b"], aenv, acond, tail)
@@ -279,6 +289,8 @@ class Flow:
         elif k == "Let":
             self.visit(e["e"], env, cond)
         else:
+            if k in ("Binary", "AssignOp", "Unary") and e.get("callee"):
+                self.ops.append((e["callee"], [self.desc(e[x], env) for x in ("a", "b") if x in e], cond, e.get("l"), e))
             for key in ("e", "a", "b", "c", "then", "else", "base"):
                 v = e.get(key)
                 if isinstance(v, dict) and "k" in v:
@@ -289,3 +301,55 @@ class Flow:
             for f in e.get("fields", []) or []:
                 if isinstance(f, dict) and "e" in f:
                     self.visit(f["e"], env, cond)
+
+
+def emptiness(cond_entry):
+    """What a path-condition entry says about the tested collection: 'empty', 'nonempty' or None.
+    Recognised idioms: c.is_empty(); c.len() ==/!=/>/>=/</<= 0|1; c.first()/last()/get(0)/pop()/iter().next() matched against Some/None;
+    slice patterns [] / [x] / [x, ..].  Returns (verdict, descriptor of the collection)."""
+    d, pats, taken = cond_entry
+
+    def base(x):
+        while isinstance(x, tuple) and x and x[0] == "via":
+            x = x[2]
+        return x
+    d = base(d)
+    if isinstance(d, tuple) and d and d[0] == "un" and d[1] == "!":
+        v = emptiness((d[2], pats, not taken))
+        return v
+    if isinstance(d, tuple) and d and d[0] == "call" and isinstance(d[1], str):
+        nm = d[1].split("::")[-1]
+        coll = base(d[2][0]) if d[2] else None
+        if nm == "is_empty" and pats == ("true",):
+            return ("empty" if taken else "nonempty", coll)
+        if nm in ("first", "last", "pop", "next", "first_mut", "last_mut", "split_first", "split_last"):
+            some = any(isinstance(c, str) and c.endswith("Option::Some") for c in pats)
+            none = any(isinstance(c, str) and c.endswith("Option::None") for c in pats)
+            if some and not none:
+                return ("nonempty" if taken else "empty", coll)
+            if none and not some:
+                return ("empty" if taken else "nonempty", coll)
+    if isinstance(d, tuple) and d and d[0] == "bin" and pats == ("true",):
+        op, a, b = d[1], base(d[2]), base(d[3])
+        flip = {"<": ">", ">": "<", "<=": ">=", ">=": "<=", "==": "==", "!=": "!="}
+        for x, y, o in ((a, b, op), (b, a, flip.get(op))):
+            if isinstance(x, tuple) and x and x[0] == "call" and isinstance(x[1], str) and x[1].split("::")[-1] == "len" and isinstance(y, tuple) and y and y[0] == "lit" and o:
+                try:
+                    k = int(y[1])
+                except (TypeError, ValueError):
+                    continue
+                coll = base(x[2][0]) if x[2] else None
+                # truth of (len o k) when taken; decide emptiness when it is implied
+                if not taken:
+                    o = {"<": ">=", ">": "<=", "<=": ">", ">=": "<", "==": "!=", "!=": "=="}[o]
+                if (o == "==" and k == 0) or (o == "<" and k == 1) or (o == "<=" and k == 0):
+                    return ("empty", coll)
+                if (o == "!=" and k == 0) or (o == ">" and k >= 0) or (o == ">=" and k >= 1) or (o == "==" and k >= 1):
+                    return ("nonempty", coll)
+    for c in pats:
+        if isinstance(c, tuple) and c and c[0] == "slice" and taken:
+            if c[1] == 0 and not c[2]:
+                return ("empty", d)
+            if c[1] >= 1:
+                return ("nonempty", d)
+    return (None, None)
